@@ -281,6 +281,35 @@ Proof.
     destruct (le12_cases _ Hle) as [E|[E|[E|[E|[E|[E|[E|[E|[E|[E|[E|[E|E]]]]]]]]]]]]; rewrite E; reflexivity.
 Qed.
 
+(** * The part of well-formedness that the attack tests need (also holds for the position in
+    the middle of removeIllegal's make / test / unmake, which need not be "accepted") *)
+Definition BoardOK (p : position) : Prop :=
+  (forall k, getPiece p k <= 12) /\
+  (forall pc k, In pc pieceCodes -> N.testbit (ptBB p pc) k = (k <? 64) && (getPiece p k =? pc)) /\
+  (forall w k, N.testbit (colorBB p w) k = (k <? 64) && has_color w (getPiece p k)).
+
+Lemma WF_BoardOK : forall p, WF p -> BoardOK p.
+Proof.
+  intros p H. split; [|split].
+  - intro k. apply WF_pieces_le_12. exact H.
+  - intros pc k Hpc. apply ptBB_testbit; assumption.
+  - intros w k. apply colorBB_testbit. exact H.
+Qed.
+
+Lemma BoardOK_le12 : forall p k, BoardOK p -> getPiece p k <= 12.
+Proof. intros p k H. apply H. Qed.
+Lemma BoardOK_ptBB : forall p pc k, BoardOK p -> In pc pieceCodes ->
+  N.testbit (ptBB p pc) k = (k <? 64) && (getPiece p k =? pc).
+Proof. intros p pc k H Hpc. apply H. exact Hpc. Qed.
+Lemma BoardOK_color : forall p w k, BoardOK p ->
+  N.testbit (colorBB p w) k = (k <? 64) && has_color w (getPiece p k).
+Proof. intros p w k H. apply H. Qed.
+Lemma BoardOK_ptBB_lt : forall p pc, BoardOK p -> In pc pieceCodes -> ptBB p pc < 2 ^ 64.
+Proof.
+  intros p pc H Hpc. apply lt_2_64_of_bits. intros i Hi. rewrite (BoardOK_ptBB p pc i H Hpc) in Hi.
+  apply andb_true_iff in Hi. destruct Hi as [Hi _]. apply N.ltb_lt in Hi. exact Hi.
+Qed.
+
 (** * Step pieces: generator blocks = Spec pseudo-moves *)
 Lemma step_moves_In : forall b w f r offs m,
   In m (step_moves b w f r offs) <->
@@ -443,6 +472,23 @@ Proof.
   { apply N.neq_0_lt_0. intro E. rewrite E, N.bits_0 in Hbit. discriminate. }
   unfold firstSquare. rewrite (firstBitT_correct _ Hpos Hlt).
   pose proof (firstBit_testbit _ Hpos) as Hfb. rewrite (ptBB_testbit p _ _ H Hpc) in Hfb.
+  apply andb_true_iff in Hfb. destruct Hfb as [Hf1 Hf2]. apply N.ltb_lt in Hf1. apply N.eqb_eq in Hf2. auto.
+Qed.
+
+Lemma kingSq_spec_B : forall p w, BoardOK p ->
+  (exists s, s < 64 /\ getPiece p s = mk_piece w King) ->
+  kingSq p w < 64 /\ getPiece p (kingSq p w) = mk_piece w King.
+Proof.
+  intros p w H [s [Hs Hk]]. unfold kingSq.
+  assert (Emk : (if w then WKING else BKING) = mk_piece w King) by (destruct w; reflexivity). rewrite Emk.
+  assert (Hpc : In (mk_piece w King) pieceCodes) by (destruct w; cbn; tauto).
+  pose proof (BoardOK_ptBB_lt p _ H Hpc) as Hlt.
+  assert (Hbit : N.testbit (ptBB p (mk_piece w King)) s = true).
+  { rewrite (BoardOK_ptBB p _ s H Hpc). apply andb_true_iff. split; [apply N.ltb_lt; exact Hs | apply N.eqb_eq; exact Hk]. }
+  assert (Hpos : 0 < ptBB p (mk_piece w King)).
+  { apply N.neq_0_lt_0. intro E. rewrite E, N.bits_0 in Hbit. discriminate. }
+  unfold firstSquare. rewrite (firstBitT_correct _ Hpos Hlt).
+  pose proof (firstBit_testbit _ Hpos) as Hfb. rewrite (BoardOK_ptBB p _ _ H Hpc) in Hfb.
   apply andb_true_iff in Hfb. destruct Hfb as [Hf1 Hf2]. apply N.ltb_lt in Hf1. apply N.eqb_eq in Hf2. auto.
 Qed.
 
